@@ -1,3 +1,4 @@
+import Sparrow.Proofs.MonoGlueEquiv
 import Sparrow.Proofs.GlueEquiv
 import Sparrow.Proofs.LegKernelEquiv
 import Sparrow.Proofs.BakeKernelEquiv
@@ -178,3 +179,15 @@ theorem collectEnergyPatches_scale
   Sparrow.collectEnergyPatches_scale vis pt R P B S W D rpos att pp pc etc wp wn dirs wall c dt fx s0 s1 s2 s3 s4 s5 s6 s7 s8 s9 s10 s11 j1 j2 j3 j4 i p b t hi hp hb s
 
 end Sparrow.Props.C11.Glue
+
+namespace Sparrow.Props.C11.MonoGlue
+open Sparrow Sparrow.Generated.MonoGlue
+
+/-- additivity (C11): without the direct sound the mono curve IS the sum of the patch-wise curves -/
+theorem collectEnergyReceiverMono_additive (pw : Nat → Nat → Nat → Nat → ℝ) (R P Bn S : Nat)
+    (r : Nat → ℝ) (rc : Nat → Nat → ℝ) (B : Nat) (att : Option (Nat → ℝ))
+    (g : Option ((Nat → Nat → ℝ) → ℝ → Nat → ℝ)) (freq : Nat → ℝ) (c dt : ℝ) (k b t : Nat) :
+    collectEnergyReceiverMono pw R P Bn S false r rc B att g freq c dt k b t = ∑ p ∈ Finset.range P, pw k p b t :=
+  Sparrow.collectEnergyReceiverMono_additive pw R P Bn S r rc B att g freq c dt k b t
+
+end Sparrow.Props.C11.MonoGlue
